@@ -250,13 +250,19 @@ func (u *Unit) typeTag(t types.Type) Term {
 }
 
 // box converts a non-reference value into an Int payload for interfaces.
+// Injectivity is stated per boxed term (ground), not as a quantified axiom.
 func (u *Unit) box(v Term) Term {
 	if v.Sort == SInt {
 		return v
 	}
 	name := "box_" + sortID(v.Sort)
 	u.sc.declareFun(name, []string{v.Sort}, SInt)
-	return Term{fmt.Sprintf("(%s %s)", name, v.S), SInt}
+	u.sc.declareFun("un"+name, []string{SInt}, v.Sort)
+	b := Term{fmt.Sprintf("(%s %s)", name, v.S), SInt}
+	if !strings.Contains(v.S, "q!") && !isFormal(v.S) {
+		u.axiomOnce("box:"+b.S, fmt.Sprintf("(and (= (un%s %s) %s) (>= %s 0))", name, b.S, v.S, b.S))
+	}
+	return b
 }
 
 func (u *Unit) unbox(p Term, sortName string) Term {
@@ -266,8 +272,6 @@ func (u *Unit) unbox(p Term, sortName string) Term {
 	name := "box_" + sortID(sortName)
 	u.sc.declareFun(name, []string{sortName}, SInt)
 	u.sc.declareFun("un"+name, []string{SInt}, sortName)
-	// injectivity of boxing is only needed once a value is unboxed again
-	u.axiomOnce("un"+name, fmt.Sprintf("(forall ((x %s)) (! (= (un%s (%s x)) x) :pattern ((%s x))))", sortName, name, name, name))
 	return Term{fmt.Sprintf("(un%s %s)", name, p.S), sortName}
 }
 
@@ -281,7 +285,15 @@ func (u *Unit) mapRegions(mt *types.Map) (dom, val string) {
 	return
 }
 
+// mapGet is the Go value of m[k]: the stored value if the key is present, the zero value otherwise.
 func (u *Unit) mapGet(h Heap, m CVal, k CVal) CVal {
+	mt := m.Ty.Underlying().(*types.Map)
+	raw := u.mapGetRaw(h, m, k)
+	has := mkAnd(mkNot(mkEq(m.T, intConst(0))), u.mapHas(h, m.T, mt, k.T))
+	return CVal{T: mkIte(has, raw.T, u.te.zero(mt.Elem())), Ty: mt.Elem()}
+}
+
+func (u *Unit) mapGetRaw(h Heap, m CVal, k CVal) CVal {
 	mt := m.Ty.Underlying().(*types.Map)
 	_, val := u.mapRegions(mt)
 	vs := u.te.sortOf(mt.Elem())
